@@ -259,11 +259,11 @@ Definition site_active (lf lg : list item) (dead_exports : list N) (s : rsite) :
   end.
 
 (* Ok (Some q) = emitted with index q; Ok None = the reference is dropped (deleted start function);
-   Panic = encode panics *)
+   Panic = encode panics.  Exports of functions, globals and memories go through the id maps (global exports
+   since the repair of D03). *)
 Definition site_emit (mf mg mm : list (N * N)) (s : rsite) : res (option N) :=
   let m := match rs_sp s with SF => mf | SG => mg | SM => mm end in
   match rs_k s, rs_sp s with
-  | KExport, SG => Ok (Some (rs_id s))                      (* D03: global exports are copied *)
   | KElemExpr, _ => Ok (Some (rs_id s))                     (* D05 *)
   | KStart, _ => Ok (lookup m (rs_id s))                    (* warn!("Deleted the start function!") *)
   | _, _ => match lookup m (rs_id s) with Some q => Ok (Some q) | None => Panic 50 end
